@@ -275,6 +275,20 @@ func refusals() []refusal {
 			refusal{"to typed nil " + n, func() vocab.Item { return tn[n] }, obj("https://example.com/a", "Note")},
 			refusal{"from typed nil " + n, obj("https://example.com/a", "Note"), func() vocab.Item { return tn[n] }})
 	}
+	// to has a type, from has none (the other direction of "to has a type that differs from from's"), for every supported kind
+	for _, kn := range copyKinds {
+		k := vmodel.Kinds[vmodel.KindIndex(kn)]
+		mk := func(typ string) func() vocab.Item {
+			return func() vocab.Item {
+				p := reflect.ValueOf(k.New())
+				p.Elem().FieldByName("ID").Set(reflect.ValueOf(vocab.IRI("https://example.com/a")))
+				p.Elem().FieldByName("Type").Set(reflect.ValueOf(vocab.ActivityVocabularyType(typ)))
+				p.Elem().FieldByName("Summary").Set(reflect.ValueOf(vocab.NaturalLanguageValues{{Ref: vocab.NilLangRef, Value: vocab.Content("summary of " + typ)}}))
+				return p.Interface().(vocab.Item)
+			}
+		}
+		out = append(out, refusal{"type differs: typed " + kn + " to, untyped from", mk(k.SpecificType()), mk("")})
+	}
 	out = append(out,
 		refusal{"id host differs", obj("https://example.com/a", "Note"), obj("https://other.example/a", "Note")},
 		refusal{"id path differs", obj("https://example.com/a", "Note"), obj("https://example.com/b", "Note")},
@@ -356,6 +370,37 @@ func init() {
 					ac := aliases[idx]
 					c.Distinct(fmt.Sprintf("alias|%s|%s|%s|%s", ac.Kind.Name, ac.F1.Term, ac.F2.Term, ac.Mode), true)
 					runAliased(c, ac, idx)
+				}},
+				{Name: "totals", N: 4 * 4 * 3 * 3 * 3, Exhaustive: true, Run: func(c *Ctx, idx int) {
+					// collections: totalItems and the members on both sides, small numbers on purpose (a total below, at and above
+					// the number of members): totalItems ends up as to's or from's value, never a third one
+					kn := []string{"Collection", "OrderedCollection", "CollectionPage", "OrderedCollectionPage"}[idx%4]
+					tt := []uint{0, 1, 2, 7}[(idx/4)%4]
+					ft := []uint{0, 1, 5}[(idx/16)%3]
+					ti := []int{0, 1, 3}[(idx/48)%3]
+					fi := []int{0, 2, 4}[(idx/144)%3]
+					k := vmodel.Kinds[vmodel.KindIndex(kn)]
+					mk := func(total uint, n int, base string) any {
+						p := reflect.ValueOf(k.New())
+						p.Elem().FieldByName("ID").Set(reflect.ValueOf(vocab.IRI("https://example.com/copy/col")))
+						p.Elem().FieldByName("Type").Set(reflect.ValueOf(vocab.ActivityVocabularyType(k.SpecificType())))
+						p.Elem().FieldByName("TotalItems").SetUint(uint64(total))
+						if n > 0 {
+							l := vocab.ItemCollection{}
+							for i := 0; i < n; i++ {
+								l = append(l, vocab.IRI(fmt.Sprintf("https://example.com/%s/%d", base, i)))
+							}
+							f := p.Elem().FieldByName("Items")
+							if !f.IsValid() {
+								f = p.Elem().FieldByName("OrderedItems")
+							}
+							f.Set(reflect.ValueOf(l))
+						}
+						return p.Interface()
+					}
+					c.Distinct(fmt.Sprintf("totals|%s|%d|%d|%d|%d", kn, tt, ft, ti, fi), true)
+					c.Count("totals-cases", 1)
+					judgeCopy(c, k, fmt.Sprintf("%s totalItems to=%d from=%d, members to=%d from=%d", kn, tt, ft, ti, fi), mk(tt, ti, "old"), mk(ft, fi, "new"))
 				}},
 				{Name: "refusals", N: len(refs), Exhaustive: true, Run: func(c *Ctx, idx int) {
 					r := refs[idx]
